@@ -493,10 +493,40 @@ func runRaceParallel(t *testing.T, name string, exhaustive bool, cases []RaceCas
 	close(ch)
 	wg.Wait()
 	if firstErr != nil {
+		if !strings.HasPrefix(firstErr.Error(), "HARNESS") {
+			firstCase, firstErr = shrinkRaceCase(firstCase, firstErr, st)
+		}
 		SaveFailing("C16", "C16", firstCase, firstErr.Error())
 		t.Fatalf("C16 violated: %v", firstErr)
 	}
 	completed = true
+}
+
+// shrinkRaceCase drops operations one at a time (each candidate runs in fresh child processes, up to
+// three times, because a race report is schedule-dependent) and keeps every smaller schedule that
+// still produces a report with library frames.
+func shrinkRaceCase(c RaceCase, err error, st *Stats) (RaceCase, error) {
+	fails := func(x RaceCase) error {
+		for try := 0; try < 3; try++ {
+			st.Count("shrink-runs", 1)
+			if _, _, _, e := execC16(x, os.TempDir()); e != nil && !strings.HasPrefix(e.Error(), "HARNESS") {
+				return e
+			}
+		}
+		return nil
+	}
+	for changed := true; changed && len(c.Ops) > 1; {
+		changed = false
+		for i := range c.Ops {
+			cand := c
+			cand.Ops = append(append([]RaceOp(nil), c.Ops[:i]...), c.Ops[i+1:]...)
+			if e := fails(cand); e != nil {
+				c, err, changed = cand, e, true
+				break
+			}
+		}
+	}
+	return c, err
 }
 
 func defaultOp(kind string, i int) RaceOp {
